@@ -30,7 +30,8 @@ def lim(x):
 
 
 # ---------------------------------------------------------------- vocabulary
-METHODS_OK = [b"GET", b"POST", b"PUT", b"DELETE", b"OPTIONS", b"M-SEARCH", b"x", b"get", b"G!#$%&'*+-.^_`|~9"]
+METHODS_OK = [b"GET", b"POST", b"PUT", b"DELETE", b"OPTIONS", b"M-SEARCH", b"x", b"get", b"G!#$%&'*+-.^_`|~9",
+              b"PUBLI\xc3\x89", b"\xe2\x82\xac\xf0\x9f\x98\x80"]      # the method is not validated: multi-byte UTF-8 is accepted
 METHODS_ODD = [b"", b"G\xc3\xa9T", b"GE\tT", b"G\x00T", b"\xff", b"G:T", b"GET\r", b"\nGET"]
 TARGETS_OK = [b"/", b"*", b"/index.html", b"/a/b/c?x=1&y=2", b"/a%20b", b"/%41", b"/\xc3\xa9t\xc3\xa9",
               b"http://www.example.com/", b"http://www.example.com:8080/p?q#f", b"example.com:443",
@@ -217,7 +218,8 @@ CODES_ODD = [b"1000", b"+200", b"-1", b"2 00", b"", b"20x", b"0x10", b"999999999
 REASONS = [b"OK", b"", b"Not Found", b" OK ", b"O\tK", b"caf\xc3\xa9", b"a  b", b"x" * 50, b"200", b":"]
 REASONS_ODD = [b"\xff", b"O\rK", b"O\nK", b"\x00"]
 TE_VALUES = [b"chunked", b"Chunked", b"CHUNKED", b"gzip, chunked", b"gzip,chunked", b" gzip ,\tdeflate , chunked ",
-             b"chunked,", b"chunked,,", b"gzip, deflate, chunked", b"x, chunked", b",chunked", b"identity,chunked"]
+             b"chunked,", b"chunked,,", b"gzip, deflate, chunked", b"x, chunked", b",chunked", b"identity,chunked",
+             b"gzip,,chunked", b"gzip, , chunked", b"gzip,, chunked,", b",,chunked"]
 TE_VALUES_ODD = [b"chunked, gzip", b"gzip", b"", b"chunke", b"chunkedd", b"chunked chunked", b"chunked;q=1",
                  b"chunked, chunked", b",", b"\"chunked\""]
 
